@@ -161,6 +161,30 @@ impl<Key> SpecificObjectWithoutServices<Key> where Key: Copy + Eq + Hash {
 //@item aldrin/src/discoverer/any.rs struct AnyObject
 
 impl<Key> AnyObject<Key> where Key: Copy + Eq + Hash {
+    // the dispatch of the "any object" kind: an object is reported as Created only by the creation of an object when no services are
+    // required, or by the ServiceCreated that gives it every required service
+    //@fn aldrin/src/discoverer/any.rs AnyObject::handle_event
+        requires
+            event matches BusEvent::ObjectCreated(id) ==> !old(self).created@.contains_key(id.uuid),
+            event matches BusEvent::ObjectDestroyed(id) ==> (old(self).created@.contains_key(id.uuid) ==> old(self).created@[id.uuid] == id.cookie),
+            event matches BusEvent::ServiceCreated(id) ==> (old(self).services@.contains_key(id.uuid) ==>
+                !old(self).services@[id.uuid]@.contains_key(id.object_id.uuid) && !old(self).created@.contains_key(id.object_id.uuid)),
+            event matches BusEvent::ServiceDestroyed(id) ==> {
+                &&& old(self).services@.contains_key(id.uuid) ==> old(self).services@[id.uuid]@.contains_key(id.object_id.uuid)
+                        && old(self).services@[id.uuid]@[id.object_id.uuid] == id.cookie
+                &&& old(self).created@.contains_key(id.object_id.uuid) ==> old(self).created@[id.object_id.uuid] == id.object_id.cookie
+            },
+        ensures
+            final(self).key == old(self).key,
+            final(self).services@.dom() == old(self).services@.dom(),
+            r is Some && r->Some_0.kind == DiscovererEventKind::Created ==> {
+                ||| (event matches BusEvent::ObjectCreated(id) && old(self).services@.len() == 0 && r->Some_0.object == id)
+                ||| (event matches BusEvent::ServiceCreated(id) && r->Some_0.object == id.object_id
+                        && forall|su: ServiceUuid| #![trigger final(self).services@[su]] final(self).services@.contains_key(su)
+                            ==> final(self).services@[su]@.contains_key(id.object_id.uuid))
+            },
+    //@end
+
     //@fn aldrin/src/discoverer/any.rs AnyObject::object_destroyed
         requires
             old(self).created@.contains_key(id.uuid) ==> old(self).created@[id.uuid] == id.cookie,
